@@ -15,7 +15,7 @@ from ..model import src
 from ..report import Report, key_of
 from ..terms import dag_nodes, has_opaque, pretty
 from ..types import Ctx
-from .common import TRUSTED_BASE, bound_args, cfg_nodes_for, effects_of, inl, is_run_edge, subst_single_assign, where
+from .common import TRUSTED_BASE, bound_args, cfg_nodes_for, effects_of, facts_text, inl, is_run_edge, subst_single_assign, where
 
 
 def provenance(t, old_names, new_names):
@@ -197,6 +197,15 @@ def run(A, R: Report, thorough: bool):
         R.check(part_t in dag_nodes(with_part) and fp_t in dag_nodes(with_part), 'R20.6', 'Config.repr_name_without_namespace', key_of('part-in-identifier', pretty(with_part)[:100]), 'file path and part',
                 f'for a config taken from part `p` of a file the identifier is `{pretty(with_part)[:120]}`: two parts of one file used under different namespaces share one name-mode task object, so the results of the second are not migrated',
                 witness=[pretty(rt)[:300]], where=where(frn))
+
+    # ---- R20.7 the explicit part survives the rebuild (the migration passes path and part separately)
+    R.rule('R20.7', 'Config.__init__ takes the part from the file path only when the path contains `#` (an explicit part= is kept otherwise)', floor=0)
+    finit7 = cfgcls.lookup('__init__')
+    cfgi7 = A.cfg(finit7)
+    for n in [n for n in inl(A, finit7) if isinstance(n, ast.Assign) and any(src(x) == 'self._part' for t_ in n.targets for x in ([t_] + (list(t_.elts) if isinstance(t_, (ast.Tuple, ast.List)) else []))) and "'#'" in src(n.value)]:
+        guarded = all(any(("'#' in " in t_ and pol) or ("'#' not in " in t_ and not pol) for t_, pol in facts_text(A, finit7, cfgi7, cn.id)) for cn in cfg_nodes_for(cfgi7, n))
+        R.check(guarded, 'R20.7', f'Config.__init__: `{src(n)[:50]}`', key_of('part-from-path', guarded), 'explicit part kept when the path has no `#`',
+                f'`{src(n)[:70]}` overwrites an explicitly given part when the path has no `#`: the config rebuilt by the migration (path + part) resolves to the main part of the file, and results are copied under the wrong keys', where=where(finit7, n))
 
     # ---- R20.5 key derivation is stateless
     from .purity import check_key_stateless
